@@ -63,6 +63,11 @@ def emits (s : SerMode) (o : Option Val) : Bool :=
   | .skipNone => o.isSome
   | .never => false
 
+/-- integer map key of member `i` of an indexed struct (`usize` ⇒ u64 head) -/
+def keyIdx (off : Nat) : Nat → FieldInfo → List Byte := fun i _ => encHead 0 (off + i)
+/-- text map key of a serde_derive struct member -/
+def keyTxt : Nat → FieldInfo → List Byte := fun _ f => encText f.key
+
 mutual
 def encode : Ty → Val → List Byte
   | .leaf l, v => encLeaf l v
@@ -70,26 +75,22 @@ def encode : Ty → Val → List Byte
   | .filtered _ _ _ lit elem, .list vs =>
       encHead 4 vs.length ++
         (vs.map (fun v => encode elem (.record [some v, some (.text lit)]))).flatten
-  | .indexed off fs, .record s => encHead 5 (countEmit fs s) ++ encIdxFields fs off 0 s
-  | .text fs, .record s => encHead 5 (countEmit fs s) ++ encTxtFields fs s
+  | .indexed off fs, .record s => encHead 5 (countEmit fs s) ++ encFields (keyIdx off) fs 0 s
+  | .text fs, .record s => encHead 5 (countEmit fs s) ++ encFields keyTxt fs 0 s
   | .untagged alts, .variant i v => encAlt alts i v
   | _, _ => []
 /-- number of map entries written (`serialize_map(Some(count))` / `serialize_struct(len)`) -/
 def countEmit : Fields → Slots → Nat
   | .nil, _ => 0
   | .cons f _ rest, s => (if emits f.ser s.head?.join then 1 else 0) + countEmit rest s.tail
-def encIdxFields : Fields → Nat → Nat → Slots → List Byte
-  | .nil, _, _, _ => []
-  | .cons f t rest, off, i, s =>
+/-- the entries of a struct in declaration order: key, then the value (`null` for an unset member
+    that is not skipped) -/
+def encFields (key : Nat → FieldInfo → List Byte) : Fields → Nat → Slots → List Byte
+  | .nil, _, _ => []
+  | .cons f t rest, i, s =>
     (if emits f.ser s.head?.join then
-       encHead 0 (off + i) ++ (match s.head?.join with | some v => encode t v | none => [0xf6])
-     else []) ++ encIdxFields rest off (i+1) s.tail
-def encTxtFields : Fields → Slots → List Byte
-  | .nil, _ => []
-  | .cons f t rest, s =>
-    (if emits f.ser s.head?.join then
-       encText f.key ++ (match s.head?.join with | some v => encode t v | none => [0xf6])
-     else []) ++ encTxtFields rest s.tail
+       key i f ++ (match s.head?.join with | some v => encode t v | none => [0xf6])
+     else []) ++ encFields key rest (i+1) s.tail
 def encAlt : Fields → Nat → Val → List Byte
   | .nil, _, _ => []
   | .cons _ t _, 0, v => encode t v
